@@ -23,6 +23,8 @@ Raw(i) == RawLineSpan(src, i)
 RECURSIVE AllWs(_, _)
 AllWs(s, e) == IF s >= e THEN s = e ELSE LET k == WsStart(src, s, e) IN k > 0 /\ AllWs(s + k, e)
 
+\* RP: every string, for the harness to give to the real SourceInfo (`lc3v replay srcinfo`)
+Emit == phase = "chk" => PrintT(<<"HIST", src>>)
 Prop ==
   phase = "chk" =>
   \* the line count is the number of newlines plus one
